@@ -79,9 +79,11 @@ package storage
 //@   pure
 //@   ensures [non-nil] result != nil
 
+// partition borders are stored keys or well-formed internal keys (at least magic + '$' + revision)
 //@ func KvStorage.GetPartitions(ctx, start, end) (partitions, err)
 //@   assumed
 //@   ensures [fresh] fresh(partitions) || is_nil(partitions)
+//@   ensures [decodable-borders] forall(k, 0 <= k && k < len(partitions), len(partitions[k].End) >= 13)
 
 //@ func KvStorage.Iter(ctx, start, end, timestamp, limit) (it, err)
 //@   assumed
